@@ -63,7 +63,9 @@ class ForLoop:
         self.name = i.name
         self.indexed_symbols = OrderedDict()
 
-    def register_indexed_symbol(self, e, index_function, transpose, tree, index_expr=None):
+    def register_indexed_symbol(
+        self, e, index_function, transpose, tree, index_expr=None, dim=None
+    ):
         if isinstance(index_expr, ca.MX) and index_expr is not self.index_variable:
             F = ca.Function("index_expr", [self.index_variable], [index_expr])
             # expr = lambda ar: np.array([F(a)[0] for a in ar], dtype=int)
@@ -72,6 +74,14 @@ class ForLoop:
             indices = np.array(res[0].T, dtype=int)
         else:
             indices = self.values
+        if dim is not None and np.size(indices) > 0:
+            # Modelica indexing starts from one; a value outside [1, dim] must not wrap around.
+            if np.min(indices) < 1 or np.max(indices) > dim:
+                raise ValueError(
+                    "Index of symbol {} in for loop over {} is out of bounds. "
+                    "Index should be in range [1,{}] "
+                    "(Modelica uses 1-based indexing).".format(tree.name, self.name, dim)
+                )
         self.indexed_symbols[e] = ForLoopIndexedSymbol(tree, transpose, index_function(indices - 1))
 
 
@@ -845,6 +855,7 @@ class Generator(TreeListener):
 
         # Check whether we loop over an index of this symbol
         indices = []
+        dims = []
         for_loop = None
         for i, (index_array, shape) in enumerate(zip(tree.indices, shapes)):
             if len(index_array) > len(shape):
@@ -933,6 +944,7 @@ class Generator(TreeListener):
                         for_loop = self.for_loops[-1]
 
                 indices.append(sl)
+                dims.append(dim)
 
         if for_loop is not None:
             if isinstance(indices[0], ca.MX):
@@ -955,7 +967,7 @@ class Generator(TreeListener):
                 # map the for loop over it
                 if np.prod(s.shape) != 0:
                     for_loop.register_indexed_symbol(
-                        indexed_symbol, index_function, True, tree, indices[0]
+                        indexed_symbol, index_function, True, tree, indices[0], dims[0]
                     )
             else:
                 s = ca.transpose(s[indices[0], :])
@@ -965,7 +977,7 @@ class Generator(TreeListener):
 
                 if np.prod(s.shape) != 0:
                     for_loop.register_indexed_symbol(
-                        indexed_symbol, lambda i: (indices[0], i), False, tree, indices[1]
+                        indexed_symbol, lambda i: (indices[0], i), False, tree, indices[1], dims[1]
                     )
             return indexed_symbol
         else:
